@@ -338,10 +338,66 @@ def check_backlog(n):
     return out
 
 
+def check_subport_fault(case):
+    """A MultiPort whose sub-port `bad` raises once while it is polled and whose other sub-ports hold messages (round 14:
+    the poll results of one round collected in a temporary list that an exception throws away).  Exactly-once does not
+    end with a transient device error: what the other sub-ports had taken in is still delivered, once, by later calls.
+    The order in which sub-ports are polled is owned by the harness (random.shuffle in mido.ports is pinned)."""
+    class Flaky(ports_mod.BaseInput):
+        def _open(self, **kwargs):
+            self.fail_next = 0
+
+        def _receive(self, block=True):
+            if self.fail_next:
+                self.fail_next -= 1
+                raise OSError('transient device error')
+
+    n, bad, per, how, order = case['n'], case['bad'], case['per'], case['how'], case['order']
+    subs = [Flaky(f'f{i}') if i == bad else ports_mod.EchoPort() for i in range(n)]
+    mp = ports_mod.MultiPort(subs)
+    sent = []
+    for i, sp in enumerate(subs):
+        if i != bad:
+            for j in range(per):
+                m = mido.Message('control_change', channel=i, control=j, value=7)
+                sp.send(m)
+                sent.append((i, j))
+    subs[bad].fail_next = 1
+    saved = ports_mod.random.shuffle
+    ports_mod.random.shuffle = (lambda x: None) if order == 'keep' else (lambda x: x.reverse())
+    got, faults = [], 0
+    try:
+        for _ in range(len(sent) + 6):
+            try:
+                if how == 'poll':
+                    m = mp.poll()
+                    if m is not None:
+                        got.append((m.channel, m.control))
+                else:
+                    got.extend((m.channel, m.control) for m in mp.iter_pending())
+            except OSError:
+                faults += 1
+    except Exception as exc:  # noqa: BLE001
+        return [fail('raises', f'{case}: {exc!r}', exc=exc_sig(exc), port='multi')]
+    finally:
+        ports_mod.random.shuffle = saved
+        for sp in subs:
+            sp.closed = True
+        mp.closed = True
+    out = []
+    if sorted(got) != sorted(sent) or any([g for g in got if g[0] == i] != [x for x in sent if x[0] == i] for i in range(n)):
+        out.append(fail('exactly-once', f'{case}: after a transient error of sub-port {bad} ({faults} seen) received '
+                                        f'{got[:10]} of {len(sent)} sent {sent[:10]}', port='multi', fault='sub-port'))
+    return out
+
+
 def run_case(case):
     if case.get('kind') == 'backlog':
         LAST.clear()
         return check_backlog(case['n'])
+    if case.get('kind') == 'subport-fault':
+        LAST.clear()
+        return check_subport_fault(case)
     prog = case['prog']
     sched, sent, received, copies = run_program(prog, case.get('sched'), case.get('first', 0))
     LAST.clear()
@@ -555,5 +611,11 @@ def main(ctx):
             do(ctx, {'prog': prog, 'sched': sched, 'first': first})
     # a backlog beyond 2**17 on one port (sequential: the exactly-once clause does not need a second thread for this)
     ctx.check({'kind': 'backlog', 'n': 140000 if not ctx.reduced else 3000}, sample=False)
+    for n, bad in ((2, 0), (2, 1), (3, 1), (3, 2)):
+        for per in (1, 3):
+            for how in ('poll', 'iter_pending'):
+                for order in ('keep', 'reverse'):
+                    ctx.check({'kind': 'subport-fault', 'n': n, 'bad': bad, 'per': per, 'how': how, 'order': order},
+                              classes=('multiport-sub-port-fault',), sample=(n == 3 and bad == 1 and per == 3))
     n = 160 if ctx.tier == 'quick' else 6000
     ctx.pmap('hyp_shard', [(k, n // 8) for k in range(8)])
